@@ -257,13 +257,25 @@ func (p *probeProvider) Acquire() (core.Ammo, bool) {
 func (p *probeProvider) Release(a core.Ammo) {
 	if ptr, isPtr := ammoPtr(a); isPtr {
 		p.mu.Lock()
-		if p.held[ptr] > 0 {
+		unheld := p.held[ptr] <= 0
+		if !unheld {
 			p.held[ptr]--
 			if p.held[ptr] == 0 {
 				delete(p.held, ptr)
 			}
 		}
 		p.mu.Unlock()
+		if unheld {
+			// core.Provider: "Release notifies that ammo usage is finished, and it can be reused. Instance MUST NOT retain
+			// references to released ammo" - this object went back to the provider before (and may be another instance's by now)
+			p.viol.add("an instance released ammo object %#x (%T) that no instance holds: it had been released already and is the provider's to hand out again", ptr, a)
+		}
 	}
 	p.inner.Release(a)
+}
+
+func (p *probeProvider) acquiredCount() int64 {
+	p.mu.Lock()
+	defer p.mu.Unlock()
+	return p.acquired
 }
